@@ -257,10 +257,13 @@ pub fn render_to_string_stream(
                         // Render the fragment now and not when the consumer gets around to it: the
                         // view can still change afterwards (later tasks, cleanup callbacks), and
                         // the output must not depend on how fast the stream is consumed.
-                        let fragment = render_suspense_fragment(fragment);
-                        // The consumer may have dropped the stream (e.g. the client went away).
-                        if tx.send(fragment).await.is_err() {
-                            break;
+                        // `None`: the boundary was disposed before it could be streamed.
+                        if let Some(fragment) = fragment {
+                            let fragment = render_suspense_fragment(fragment);
+                            // The consumer may have dropped the stream (e.g. the client went away).
+                            if tx.send(fragment).await.is_err() {
+                                break;
+                            }
                         }
 
                         // There can be more futures now. Add them to pending_futures.
